@@ -204,18 +204,111 @@ def shrink_ops(drv, h0, ops, orders, kind):
     return cur
 
 
+# ---- (c) node-sets spanning result tree fragments, the stylesheet document and the source, at the XSLT level -------------------------
+def multi_doc_case(ctx, idx, res):
+    """unions over several documents as a stylesheet sees them: two result tree fragments turned into node-sets (exsl:node-set), the stylesheet
+    itself (document('')), a second source (document(...) of a generated file) and the main source.  Every element carries its own place
+    in its document (@n, ascending in document order), so that the delivered sequence can be judged without trusting the library's order:
+    no node twice, the nodes of one document contiguous, ascending within a document, and every association / permutation of one union
+    delivering the same sequence."""
+    import xsltcommon as XC
+    r = rng_for(ctx.seed, 'c12m', idx)
+    runner = ctx.cache.get('runner')
+    if runner is None:
+        runner = ctx.cache['runner'] = XC.Runner(ctx, 'plain')
+    wd = os.path.join(ctx.workdir, 'c12m')
+    os.makedirs(wd, exist_ok=True)
+    counter = [0]
+
+    def tree(depth, tag):
+        counter[0] += 1
+        me = counter[0]
+        kids = ''.join(tree(depth + 1, tag) for _ in range(r.choice([0, 1, 2, 3]) if depth < 3 else 0))
+        return '<e n="%d" d="%s"%s>%s</e>' % (me, tag, ' a="%d"' % me if r.random() < 0.5 else '', kids)
+
+    def doc(tag):
+        counter[0] = 0
+        return '<top n="0" d="%s">%s</top>' % (tag, ''.join(tree(0, tag) for _ in range(r.choice([1, 2, 3]))))
+    main_xml, ext_xml, r1, r2 = doc('main'), doc('ext'), doc('r1'), doc('r2')
+    open(os.path.join(wd, 'ext.xml'), 'w').write(ext_xml)
+    SRC = {'main': '', 'ext': "document('ext.xml')", 'r1': 'exsl:node-set($r1)', 'r2': 'exsl:node-set($r2)', 'r1b': 'xalan:nodeset($r1)'}
+    PRED = ['', '[@n mod 2 = 0]', '[@n mod 3 = 1]', '[@a]', '[not(*)]', '[@n &gt; 3]', '[position() = last()]', '[1]']
+
+    def operand():
+        k = r.choice(sorted(SRC))
+        step = r.choice(['//e', '//e', '//*', '/top/e', '//e/e', '//e/@a', '//e/@n', '//e/parent::*', '//e/ancestor-or-self::*', '/top/parent::node()', '//e/ancestor-or-self::node()', '/top/e/ancestor::node()', '//e/following-sibling::e', '//e/preceding::e'])
+        return SRC[k] + step + r.choice(PRED)
+    ops = [operand() for _ in range(3)]
+    a, b, c = ops
+    forms = ['%s | %s | %s' % (a, b, c), '%s | %s | %s' % (c, b, a), '(%s | %s) | %s' % (b, a, c), '%s | (%s | %s)' % (a, c, b), '%s | %s | %s | %s' % (a, b, c, a), '(%s | %s) | (%s | %s)' % (a, b, b, c)]
+    body = ''.join('<u f="%d"><xsl:for-each select="%s"><x d="{(ancestor-or-self::*[last()] | *)[1]/@d}" n="{(self::*|..)[last()]/@n}" k="{name()}" g="{generate-id()}" root="{count(self::node()[not(parent::node())][not(self::*)])}"/></xsl:for-each></u>' % (i, f) for i, f in enumerate(forms))
+    xsl = ('<xsl:stylesheet version="1.0" xmlns:xsl="http://www.w3.org/1999/XSL/Transform" xmlns:exsl="http://exslt.org/common" xmlns:xalan="http://xml.apache.org/xalan" exclude-result-prefixes="exsl xalan">'
+           '<xsl:variable name="r1">%s</xsl:variable><xsl:variable name="r2">%s</xsl:variable><xsl:template match="/"><out>%s</out></xsl:template></xsl:stylesheet>' % (r1, r2, body))
+    rx = runner.transform(xsl, main_xml, xslsysid='file://' + os.path.join(wd, 'sheet.xsl'), xmlsysid='file://' + os.path.join(wd, 'main.xml'))
+    payload = {'stylesheet': xsl, 'document': main_xml, 'ext.xml': ext_xml, 'operands': ops}
+    res.count('multi_document_unions')
+    res.sig = ('multi-doc', idx)
+    if rx.status != 0:
+        res.viol('multi|fails', 'the union stylesheet fails: %s' % rx.err[:200], payload)
+        return
+    tree_ = refxml.parse(XC._DECL.sub('', rx.out.decode('utf-8')))
+    us = [u for u in [c for c in tree_.children if c.kind == refxml.ELEM][0].children if u.kind == refxml.ELEM]
+    seqs = []
+    for u in us:
+        seqs.append([dict((a_.local, a_.value) for a_ in x.attrs) for x in u.children if x.kind == refxml.ELEM])
+    docs_seen = set()
+    for i, sq in enumerate(seqs):
+        ids = [x['g'] for x in sq]
+        if len(set(ids)) != len(ids):
+            res.viol('multi|duplicate', 'the union %r delivers a node twice (%d nodes, %d distinct)' % (forms[i], len(ids), len(set(ids))), payload)
+            return
+        order, last = [], {}
+        for x in sq:
+            d_ = x['d']
+            if not order or order[-1] != d_:
+                if d_ in order:
+                    res.viol('multi|interleaved', 'the union %r interleaves the nodes of different documents: %s' % (forms[i], [y['d'] for y in sq][:40]), payload)
+                    return
+                order.append(d_)
+            if x['root'] == '1':
+                x['n'] = '-1'           # the root comes before the top element (number 0)
+            if x['n'] == '':
+                # (self::* | ..)[last()] is the node itself (or the parent of an attribute); no number means it delivered the root instead
+                res.viol('multi|order', 'in the union %r the expression (self::* | ..)[last()] at the %s element of document %s selects the root: the root is ordered after its child' % (forms[i], x['k'], d_), payload)
+                return
+            key = (int(x['n']), 0 if x['k'] != 'a' and x['k'] != 'n' else 1)       # an element before its own attributes
+            if d_ in last and key < last[d_]:
+                res.viol('multi|order', 'the union %r is not in document order within document %s: @n %s' % (forms[i], d_, [y['n'] + ('@' if y['k'] in 'an' else '') for y in sq if y['d'] == d_][:40]), payload)
+                return
+            last[d_] = key
+            docs_seen.add(d_)
+        # which document comes first is not prescribed (here: the one met first), so the forms are compared document by document
+        def per_doc(q):
+            out = {}
+            for x in q:
+                out.setdefault(x['d'], []).append(x['g'])
+            return out
+        if i and per_doc(sq) != per_doc(seqs[0]):
+            res.viol('multi|algebra', 'the unions %r and %r of the same operands deliver different node-sets: %s / %s' % (forms[0], forms[i], [(x['d'], x['n']) for x in seqs[0]][:20], [(x['d'], x['n']) for x in sq][:20]), payload)
+            return
+    res.count('multi_document_sequences_checked', len(seqs))
+    res.count('multi_documents_in_one_union_%d' % min(len(docs_seen), 4))
+    res.sample = {'operands': ops}
+
+
 def main():
     chk = Check('C12')
     chk.rule = ('(a) random insertion histories (3..200 ops) into MutableNodeRefList via addNodeInDocOrder / addNodesInDocOrder (lists flagged '
                 'document / reverse / unknown order, with duplicates) over 1-3 documents (native, Xerces-wrapped with and without index maps); '
-                '(b) union algebra on triples of generated node-set expressions. A case is one history or one triple; all are non-trivial; '
+                '(b) union algebra on triples of generated node-set expressions; (c) unions spanning two result tree fragments (exsl:node-set, xalan:nodeset), a second source (document()) and the main source, in six associations / permutations, judged by a document-order number every element carries. A case is one history or one triple; all are non-trivial; '
                 'distinct = distinct case index.')
     chk.assumptions = ['document order is computed by the harness from its own parse (refxml)', 'relative order of namespace nodes and attributes of one element is not checked',
                        'the order of whole documents relative to each other is not prescribed; only contiguity is checked']
     chk.ensure('plain', 'xvdrv')
     n = 400 if chk.tier == 'quick' else 100000
     chk.run_cases('c12', 'case', range(n))
-    chk.finish(min_nontrivial=100, required_stats=('histories', 'union_triples'))
+    chk.run_cases('c12', 'multi_doc_case', range(n if chk.tier == 'quick' else n // 10))
+    chk.finish(min_nontrivial=100, required_stats=('histories', 'union_triples', 'multi_document_unions', 'multi_documents_in_one_union_3'))
 
 
 if __name__ == '__main__':
